@@ -101,6 +101,20 @@ class Mini:
             if type(a) is type(b) and not isinstance(a, Sym) and isinstance(a, (str, list, tuple, int)):
                 return a + b
             return Sym(t)
+        if isinstance(node, ast.JoinedStr):
+            # f"{a}{b}.." of known strings (no conversion, no format spec) is their concatenation
+            parts = []
+            for v_ in node.values:
+                if isinstance(v_, ast.Constant) and isinstance(v_.value, str):
+                    parts.append(v_.value)
+                elif isinstance(v_, ast.FormattedValue) and v_.conversion == -1 and v_.format_spec is None:
+                    x_ = self.ev(v_.value)
+                    if isinstance(x_, Sym) or not isinstance(x_, str):
+                        return Sym(t)
+                    parts.append(x_)
+                else:
+                    return Sym(t)
+            return "".join(parts)
         return Sym(t)
 
     def truth(self, node):
@@ -137,6 +151,8 @@ class Mini:
                         return {ast.Lt: a < b, ast.LtE: a <= b, ast.Gt: a > b, ast.GtE: a >= b}[type(op)]
                 except TypeError:
                     pass
+        if isinstance(node, ast.Name) and node.id in self.env and not isinstance(self.env[node.id], Sym) and isinstance(self.env[node.id], (bool, int, str, bytes, tuple, list, dict, type(None))):
+            return bool(self.env[node.id])  # a local whose value is known
         v = self.assume(norm(node))
         if v is not None:
             return v
